@@ -85,7 +85,12 @@ def run(tier, replay=None):
     r.add_tlc(big, "rank_simulate_U30")
     bigtabs = [{"U": 30, "tab": t} for t in big["json"] if isinstance(t, list) and len(t) >= 44]
     bigtabs += [dict(t, off=rng.choice([3000, -1500])) for t in bigtabs[:len(bigtabs) // 2]]
-    tables += shifted + bigtabs
+    # the stage run a second time in the same output directory, after a run on another table with the same uniques
+    rerun = []
+    for t in rng.sample(tables, min(len(tables), 150 if tier == "quick" else 1500)):
+        other = rng.choice([q for q in tables if q["U"] == t["U"]])
+        rerun.append(dict(t, pre=other["tab"]))
+    tables += shifted + bigtabs + rerun
     for k, t in enumerate(tables):
         t["id"] = k
     # run the real stage: 1 rank (parallel pool) for all tables, 2 and 3 ranks for a sample
@@ -144,7 +149,7 @@ def run(tier, replay=None):
                     {"table": t, "P": P, "final": final})
     r.add("tables", evaluations=len(cases), nontrivial=nontriv, traces=len(cases), exhaustive_alphabet=consts, runs_P1=sum(1 for m in meta if m[0] == 1),
           runs_P2=sum(1 for m in meta if m[0] == 2), runs_P3=sum(1 for m in meta if m[0] == 3), runs_P12=sum(1 for m in meta if m[0] == 12),
-          shifted=sum(1 for m in meta if m[1].get("off")), many_uniques=sum(1 for m in meta if m[1]["U"] == 30))
+          shifted=sum(1 for m in meta if m[1].get("off")), rerun_in_same_directory=sum(1 for m in meta if m[1].get("pre")), many_uniques=sum(1 for m in meta if m[1]["U"] == 30))
     if cases:
         k = min(len(cases) - 1, 17)
         r.sample({"table": cases[k]["tab"], "U": cases[k]["U"], "observed_rows": cases[k]["rows"], "obs": cases[k]["obs"]})
